@@ -386,6 +386,22 @@ def _random_access(repo, L, fi, rule="R6"):
                 d2 = _replace_atom(d2, LO, Lin.const(0))
             okt = okr and d2.is_zero()
             L.check(okt, rule, f"{sb.short}[{case}]:bytes", "Σ read sizes == end − start0", f"in the case '{case}' the reads sum to {total}, which differs from the interval length end − start + 1 by {d2} (after the division identities)", sb.loc(), witness={"case": case, "reads": [repr(e[2][1][0]) if e[2][1] else None for e in reads], "whole_lines": repr(count)})
+            # ---- distribution of the reads over the lines (the sum alone would hide a byte shifted between two lines)
+            sizes = []
+            for e in reads:
+                in_loop = any(isinstance(a2, ast.For) for a2 in _anc(e[1], sb.node))
+                try:
+                    sizes.append(("loop" if in_loop else "once", as_lin(e[2][1][0])))
+                except (NotNumeric, TypeError, IndexError):
+                    sizes.append(("?", None))
+            if base_case == "single-line":
+                okd = len(sizes) == 1 and sizes[0][1] is not None and _subst_atoms(sizes[0][1] - (E - s0), {}) .is_zero()
+                whyd = f"single-line interval is read with {[repr(x[1]) for x in sizes]}, expected one read of end − start0 bytes"
+            else:
+                want_sizes = [("once", RPL - FO), ("loop", RPL)] + ([("once", LO)] if "partial" in base_case else [])
+                okd = len(sizes) == len(want_sizes) and all(k1 == k2 and v1 is not None and (v1 - v2).is_zero() for (k1, v1), (k2, v2) in zip(sizes, want_sizes))
+                whyd = f"reads are {[(k, repr(v)) for k, v in sizes]}; expected first line rpl − start0 % rpl, whole lines rpl each, then {'end % rpl' if 'partial' in base_case else 'nothing'}: bytes are taken from the wrong line positions"
+            L.check(okd, rule, f"{sb.short}[{case}]:distribution", "each read covers exactly the rest of / a whole / the head of one line", whyd, sb.loc())
             # ---- between line reads the terminator is skipped: relative seeks of (mll - rpl)
             rel = seeks[1:]
             okrel = True
